@@ -71,7 +71,10 @@ ItL(i) == [k |-> "leaf", i |-> i]
 ItS(i) == [k |-> "set",  i |-> i]
 Items(leafIdxs) == [j \in DOMAIN leafIdxs |-> ItL(leafIdxs[j])]
 \* grp: sets of one package with the same non-empty grp are declared in ONE var spec (var A, B = NewSet(..), NewSet(..))
+\*      "=alias": var Name = othersSet (a plain re-export); "=inline": no variable at all - the wire.NewSet(...) call is written
+\*      in place wherever the set is listed (it has no name that wire show / wire check could report)
 SetD(name, pkg, items) == [name |-> name, pkg |-> pkg, items |-> items, grp |-> ""]
+InlineSet(s) == s.grp = "=inline"
 Par(name, type) == [name |-> name, type |-> type]
 \* res: explicit result kinds (family Q) or <<>>; va: variadic last parameter
 Inj(name, params, out, cl, er, items) ==
